@@ -24,12 +24,16 @@ RULE = ("each case = one message, 15 legacy calls compared field by field with t
 def own(key):
     if key.startswith("leg:") or key.startswith("lsan:"):
         return PROP
-    return "C02"   # memory errors, UB, aborts and hangs in the parsers belong to C02
+    # "never writes more array elements than the caller offered": the addrttl arrays are allocated at
+    # exactly the offered capacity, so an overflow in the function that fills them is C18's own monitor
+    if key.startswith("asan:heap-buffer-overflow:ares_addrinfo2addrttl"):
+        return PROP
+    return "C02"   # other memory errors, UB, aborts and hangs in the parsers belong to C02
 
 
 def run(tier, seed, scale=1.0):
     t0 = time.time()
-    per = int((80000 if tier == "quick" else 6000000) * scale)
+    per = int((80000 if tier == "quick" else 3000000) * scale)
     sp = C02.private_spec("legacy", "legacy", seed, opts={"corpus": CORPUS})
     res = vdriver.explore(sp, per, chunk=max(100, min(2000, per // 128)), chunk_timeout=900,
                           stop_after_violations=2000)
